@@ -146,8 +146,13 @@ func c16Input(in []byte) (tree bool, err error) {
 	for i := range work {
 		work[i] = 0xAA
 	}
-	// use the reader again on other data: its scratch buffers get overwritten
+	// use the reader again on other data - a failing read, then successful ones: its scratch
+	// buffers and whatever it recycles internally get overwritten
+	vr.ReadValue([]byte(`[["x\n",2],[3,`))
+	vr.ReadValue([]byte(`{"a\t":[1,2],"b":{"c":`))
 	vr.ReadValue([]byte(`["\n\n\n\n\n\n\n\n\n\n\n\n\n\n\n\n",{"\t\t\t\t\t\t\t\t":["\r\r\r\r\r\r\r\r\r\r\r\r"]}]`))
+	vr.ReadValue([]byte(`[[10,11],[12,13],[14,15],{"k":[16,17]},["s","t"]]`))
+	vr.ReadValue([]byte(`{"k":{"k":{"k":"v\n"}},"l":[[true,false],[null,null]]}`))
 	if e1 == nil && !ref.Equal(v1, s1) {
 		return true, fmt.Errorf("tree returned by ValueReader.ReadValue changed after the input was overwritten and the reader reused: now %.200s, was %.200s", fmt.Sprintf("%#v", v1), fmt.Sprintf("%#v", s1))
 	}
